@@ -57,7 +57,9 @@ DomSeq(sh) ==
     [] sh.k \in {"collapse", "cip"} -> DomSeq(sh.inner)
     [] sh.k = "columns" ->
          LET d == DomSeq(sh.inner)
-         IN  << <<Pick(d, 1)>>, <<Pick(d, 1), Pick(d, 2)>>, <<>>, <<Pick(d, 2), Pick(d, 1), Pick(d, 1)>>,
-                <<Pick(d, 2)>> >>
+         \* row 2 starts with the EMPTY inner value (an empty cell in a column that may hold nothing else, next to
+         \* a column with payload): per-column short cuts keyed on "this column holds no bytes" are wrong here
+         IN  << <<Pick(d, 1)>>, <<Pick(d, 3), Pick(d, 2)>>, <<>>, <<Pick(d, 2), Pick(d, 1), Pick(d, 1)>>,
+                <<Pick(d, 1), Pick(d, 2)>> >>
 
 =============================================================================
